@@ -14,7 +14,7 @@ def check(ctx):
     exe = ctx.compile('hk-shm', 'rwlock', SRC, engine='cosched')
     def leg(sets, bound, deadline):
         env = dict(os.environ); env['C33_SET'] = sets
-        args = ['--bound', str(bound), '--jobs', str(vlib.NJOBS), '--outdir', vlib.OUT, '--deadline', str(deadline)]
+        args = ['--bound', str(bound), '--jobs', str(min(vlib.NJOBS, 8 if ctx.tier == 'quick' else 12)), '--outdir', vlib.OUT, '--deadline', str(deadline)]
         ctx.run_engine(exe, args, label='rwlock-%s-b%d' % (sets.replace(',', '+'), bound), timeout=deadline + 600, env=env)
     if ctx.tier == 'quick':
         leg('pairs,small3', 2, 60)
